@@ -64,6 +64,35 @@ fn looped(g: &gen::Generated, iterations: i64) -> Option<Program> {
         p.lines[first_body].stmts = vec![];
     }
     p.lines[first_body].stmts.insert(0, Stmt::Print(vec![PItem::Expr(E::Str(MARK.into())), PItem::Semi]));
+    // every built-in function, in every argument-count form, once per pass
+    let c = |n: &'static str, a: Vec<E>| E::Call(n, a);
+    let l = |x: &str| E::Lit(x.to_string());
+    let st = |x: &str| E::Str(x.to_string());
+    let add = |a: E, b: E| E::Bin(Bin::Add, Box::new(a), Box::new(b));
+    let nums: Vec<E> = vec![
+        c("POS", vec![l("0")]),
+        c("LEN", vec![c("MID$", vec![st("abcé"), l("2")])]),
+        c("LEN", vec![c("MID$", vec![st("abcé"), l("2"), l("1")])]),
+        c("INSTR", vec![st("abé"), st("é")]),
+        c("INSTR", vec![l("2"), st("abé"), st("é")]),
+        c("LEN", vec![c("STRING$", vec![l("2"), l("65")])]),
+        c("LEN", vec![c("STRING$", vec![l("2"), st("é")])]),
+        c("LEN", vec![c("LEFT$", vec![st("abc"), l("2")])]),
+        c("LEN", vec![c("RIGHT$", vec![st("abc"), l("2")])]),
+        c("ASC", vec![c("CHR$", vec![l("66")])]),
+        c("VAL", vec![c("STR$", vec![l("5")])]),
+        c("LEN", vec![add(c("HEX$", vec![l("255")]), c("OCT$", vec![l("8")]))]),
+        c("INT", vec![c("RND", vec![l("1")])]),
+        c("SGN", vec![c("ABS", vec![c("FIX", vec![l("2.5")])])]),
+        c("CINT", vec![c("CSNG", vec![c("CDBL", vec![c("SQR", vec![l("4")])])])]),
+        c("INT", vec![c("EXP", vec![c("LOG", vec![l("1")])])]),
+        c("INT", vec![add(add(c("SIN", vec![l("0")]), c("COS", vec![l("0")])), add(c("TAN", vec![l("0")]), c("ATN", vec![l("0")])))]),
+    ];
+    let mut sum = l("0");
+    for e in nums {
+        sum = add(sum, e);
+    }
+    p.lines[first_body].stmts.insert(1, Stmt::Let { lv: Lval::Var(Name::new("Z8")), e: sum, kw: false });
     p.lines[main_end].stmts = vec![
         Stmt::Let { lv: Lval::Var(Name::new("N9%")), e: E::Bin(Bin::Add, Box::new(E::Var(Name::new("N9%"))), Box::new(E::Lit("1".into()))), kw: false },
         Stmt::Restore(None),
